@@ -8,6 +8,7 @@ import YangVerif.Drv.C05
 import YangVerif.Drv.C11
 import YangVerif.Drv.Data
 import YangVerif.Drv.C08
+import YangVerif.Drv.C09
 
 def dispatch (line : String) : String :=
   match (line.trimAscii.toString.splitOn " ").filter (· ≠ "") with
@@ -17,6 +18,7 @@ def dispatch (line : String) : String :=
   | "c11" :: rest => YangVerif.Drv.C11.handle rest
   | "data" :: rest => YangVerif.Drv.Data.handle rest
   | "c08" :: rest => YangVerif.Drv.C08.handle rest
+  | "c09" :: rest => YangVerif.Drv.C09.handle rest
   | _ => "bad-op"
 
 partial def loop (h : IO.FS.Stream) (out : IO.FS.Stream) : IO Unit := do
